@@ -312,7 +312,12 @@ def gen_delaunay(rng, idx):
                 s = int(rng.choice([1, 2, 2, 3]))
                 if total + s * s > 60:
                     s = 1
-                cy, cx = int(rng.integers(-3, L + 4)), int(rng.integers(-3, L + 4))
+                if rng.random() < 0.65:  # near a random point of a random Delaunay triangle (mostly inside the hull)
+                    t = T[int(rng.integers(0, len(T)))]
+                    lam = rng.dirichlet([1.0, 1.0, 1.0])
+                    cy, cx = (int(round(sum(l * V[k][c] for l, k in zip(lam, t)))) for c in (0, 1))
+                else:
+                    cy, cx = int(rng.integers(-3, L + 4)), int(rng.integers(-3, L + 4))
                 g = int(rng.choice([1, 1, 2]))
                 pts = []
                 for a in range(s):
@@ -570,7 +575,7 @@ def run(ctx):
         "seeded_rectangular_in_machine": {"n": n_seeded, "mask": "<=3x3 block in a 5x5 frame", "sub": "1..3 per pixel", "mesh_shapes": [list(s) for s in MESHES],
                                           "positions": "smooth distortion+jitter / uniform / far-edge crowd / repeated cells / elongated boxes, extents 3..40 ticks, any offset"},
         "neighbour_graph_shapes": "3..6 x 3..6 (all)",
-        "delaunay_validity_machine": {"vertices": del_sizes, "lattice": "(0..3)^2, no three collinear", "simplices": "every subset of the vertex triples"},
+        "delaunay_validity_machine": {"vertices": del_sizes, "lattice": "(0..3)^2, no three collinear, translated to touch both axes", "simplices": "every set of at most 2n-4 vertex triples"},
         "trace_only_rectangular": {"n": n_big, "mask": "<=4x4 block in a 7x7 frame", "sub": "1..4 per pixel", "mesh_shapes": [list(s) for s in BIG_MESHES]},
         "trace_only_delaunay": {"n": n_del, "vertices": "6..14 lattice points in general position in (0..8..12)^2", "sub_pixels": "20..60, inside and outside the hull"},
         "tick_lengths": TAUS, "tick_lengths_delaunay": DEL_TAUS, "rect_jitter_ticks": JIT,
@@ -649,8 +654,9 @@ def run(ctx):
         kinds[r["kind"]] = kinds.get(r["kind"], 0) + 1
     outside = sum(1 for r in recs if r["kind"] == "delaunay" for s in r["sizes"] if s == 1)
     inside = sum(1 for r in recs if r["kind"] == "delaunay" for s in r["sizes"] if s == 3)
-    ex = pairs[n_exh // 2][0] if n_exh else pairs[0][0]
-    ctx.sample({"exhaustive_instance": {k: ex[k] for k in ("sub", "pos", "my", "mx", "tau", "via")}, "record": recs[n_exh // 2 if n_exh else 0]})
+    if recs:
+        k = min(n_exh // 2, len(recs) - 1)
+        ctx.sample({"instance": {f: insts[k][f] for f in ("sub", "pos", "my", "mx", "tau", "origin", "via", "mask") if f in insts[k]}, "record": recs[k]})
     dl = [r for r in recs if r["kind"] == "delaunay"]
     if dl:
         ctx.sample({"delaunay_record": dl[0]})
